@@ -80,6 +80,27 @@ def mkq(c, kind, name, valid=True, unit=None):
     return SymQ(kind, v, u)
 
 
+def _declared_isinstance(obj, cls):
+    """harness stand-ins declare which library classes they stand for (so that REAL constructors and setters accept them)"""
+    names = getattr(type(obj), "_pycv_instance_of", None)
+    if names is None:
+        return None
+    return any(getattr(t, "__name__", "") in names or t is object for t in sym._unpack_types(cls))
+
+
+sym.ISINSTANCE_HOOKS.insert(0, _declared_isinstance)
+
+
+def lit(c, kind, value, unit):
+    """a LITERAL quantity (harness data that does not matter to the obligation): a SymQ with constant SI magnitude in the
+    symbolic run (constructor validations on it are decided without touching the solver), the real class in native replays"""
+    if c.concrete:
+        import gearpy.units as GU
+        return getattr(GU, kind)(value, unit)
+    from fractions import Fraction
+    return SymQ(kind, sym.SymNum(sym.frac_term(Fraction(str(value)) * AU.fac(kind, unit)), "float"), unit)
+
+
 def SI(q):
     """SI magnitude of a SymQ or of a real quantity"""
     if q is None:
